@@ -27,9 +27,10 @@ type scT struct {
 }
 
 type scV struct {
-	K string // null i s b y l
+	K string // null i s b y l o
 	I int64
 	L []scV
+	F []int // o: the field names, values in L
 }
 
 type scAV struct {
@@ -293,6 +294,12 @@ func scVSx(v scV) sx.S {
 			out = append(out, scVSx(e))
 		}
 		return out
+	case "o":
+		out := []sx.S{"o"}
+		for i, e := range v.L {
+			out = append(out, sx.L(sx.A(v.F[i]), scVSx(e)))
+		}
+		return out
 	}
 	return sx.L(v.K, sx.A(v.I))
 }
@@ -310,6 +317,15 @@ func scVFromSx(s sx.S) scV {
 		v := scV{K: "l"}
 		for _, e := range l[1:] {
 			v.L = append(v.L, scVFromSx(e))
+		}
+		return v
+	}
+	if k == "o" {
+		v := scV{K: "o"}
+		for _, e := range l[1:] {
+			kv := sx.List(e)
+			v.F = append(v.F, sx.Int(kv[0]))
+			v.L = append(v.L, scVFromSx(kv[1]))
 		}
 		return v
 	}
@@ -482,6 +498,12 @@ func scVText(v scV) string {
 			parts = append(parts, scVText(e))
 		}
 		return "[" + strings.Join(parts, ", ") + "]"
+	case "o":
+		parts := []string{}
+		for i, e := range v.L {
+			parts = append(parts, scFieldName(v.F[i], false)+": "+scVText(e))
+		}
+		return "{" + strings.Join(parts, ", ") + "}"
 	}
 	panic("bad value")
 }
@@ -681,6 +703,18 @@ func scVOf(v interface{}) scV {
 		out := scV{K: "l"}
 		for _, e := range t {
 			out.L = append(out.L, scVOf(e))
+		}
+		return out
+	case map[string]interface{}:
+		out := scV{K: "o"}
+		keys := []string{}
+		for k := range t {
+			keys = append(keys, k)
+		}
+		sort.Strings(keys)
+		for _, k := range keys {
+			out.F = append(out.F, scFieldID(k))
+			out.L = append(out.L, scVOf(t[k]))
 		}
 		return out
 	}
